@@ -24,6 +24,8 @@ RULE = (
 )
 ASSUMPTIONS = ["revisions are structures whose field lists are prefix-related (the statement's 'appends or removes trailing fields')"]
 BUDGET = {"quick": 800, "thorough": 16000}
+# coverage-guided twins (thorough tier): part name -> executions per shard; see core.cover
+COVER = {"evolution": 2500}
 
 HOLE = ["hole"]
 
